@@ -231,6 +231,9 @@ func (e *h01Env) menuStyle(tag string) Style {
 		if n > 256 {
 			n = 256
 		}
+		if pm := vsymParam("palmax", 256); pm < n {
+			n = pm // quick tier: stay inside one branch of the setaf/setab conditionals
+		}
 		fg, bg := int(vsymByte(tag+".fg")), int(vsymByte(tag+".bg"))
 		vsymAssume(vsymAnd(fg < n, bg < n))
 		st = st.Foreground(PaletteColor(fg)).Background(PaletteColor(bg))
@@ -264,11 +267,11 @@ func h01Rune(tag string, classes int) rune {
 		vsymAssume(vsymAnd(r >= 0x21, r <= 0x7e))
 		return r
 	case 1:
-		return []rune{0x4e16, 0xff21}[vsymChoice(tag+".wide", 2)] // 世, fullwidth A
+		return []rune{0x4e16, 0xff21}[vsymChoice(tag+".wide", vsymParam("reps", 1))] // 世, fullwidth A
 	case 2:
-		return []rune{0x07, 0x1b, 0x00, 0x7f}[vsymChoice(tag+".ctl", 4)]
+		return []rune{0x1b, 0x07, 0x00, 0x7f}[vsymChoice(tag+".ctl", 1+vsymParam("reps", 1))]
 	case 3:
-		return []rune{0x9b, 0x200b, 0x0301}[vsymChoice(tag+".c1", 3)] // C1 CSI, zero-width space, bare combining mark
+		return []rune{0x9b, 0x200b, 0x0301}[vsymChoice(tag+".c1", 1+vsymParam("reps", 1))] // C1 CSI, zero-width space, bare combining mark
 	}
 	return 'x'
 }
@@ -328,7 +331,7 @@ func H01_hist() {
 	}
 	e := h01New(term, w, h, truec)
 	// paint every cell: letters, one cell optionally wide
-	wide := vsymChoice("wide", w*h+1) - 1
+	wide := vsymChoice("wide", vsymParam("widevar", w*h+1)) - 1
 	for y := 0; y < h; y++ {
 		for x := 0; x < w; x++ {
 			r := rune('a' + y*w + x)
@@ -424,6 +427,62 @@ func (e *h01Env) c13(before []h08Cell, stamps []int, styleBefore Style, blkBefor
 			if !near {
 				vsymAssert(vsymImplies(same, !written), "C13: a cell whose rune, combining runes and style did not change is not rewritten by Show")
 			}
+		}
+	}
+}
+
+// small menu for multi-frame histories: what changes between frames is the
+// combining mark, the hyperlink and the attributes of one cell
+func (e *h01Env) smallMutation(tag string) {
+	x, y := vsymChoice(tag+".x", e.w), vsymChoice(tag+".y", e.h)
+	r := vsymRune(tag + ".r")
+	vsymAssume(vsymAnd(r >= 0x21, r <= 0x7e))
+	if vsymChoice(tag+".keeprune", 2) == 1 {
+		r = e.sp.cells[y*e.w+x].main
+	}
+	var comb []rune
+	switch vsymChoice(tag+".comb", 3) {
+	case 1:
+		comb = []rune{0x0301}
+	case 2:
+		comb = []rune{0x0300}
+	}
+	st := StyleDefault
+	switch vsymChoice(tag+".style", 3) {
+	case 1:
+		st = st.Url("http://x/" + string(rune('a'+vsymChoice(tag+".u", 2))))
+	case 2:
+		st = st.Bold(true).Foreground(PaletteColor(int(vsymByte(tag + ".fg"))))
+	}
+	e.set(x, y, r, comb, st)
+}
+
+// H01_frames: three frames (paint; change; change) — state that must not leak
+// from one Show into the next (hyperlinks, current style, clean snapshots).
+func H01_frames() {
+	terms := h01Terms()
+	e := h01New(terms[vsymChoice("term", vsymParam("terms", 1))], 2, 2, false)
+	for y := 0; y < 2; y++ {
+		for x := 0; x < 2; x++ {
+			e.set(x, y, rune('a'+y*2+x), nil, StyleDefault)
+		}
+	}
+	e.s.Show()
+	e.compare("frame 1")
+	for f := 0; f < 2; f++ {
+		before := make([]h08Cell, len(e.sp.cells))
+		copy(before, e.sp.cells)
+		stamps := e.stamps()
+		blk := e.tty.vt.blk
+		e.smallMutation("f" + string(rune('0'+f)))
+		e.s.Show()
+		e.compare("frame " + string(rune('2'+f)))
+		e.c13(before, stamps, e.style, blk)
+		// a changed cell must be repainted (C13's other half: Show does redraw what changed)
+		for i := range e.sp.cells {
+			b, a := &before[i], &e.sp.cells[i]
+			changed := vsymOr(b.main != a.main, vsymOr(!h08RunesEq(b.comb, a.comb), b.style != a.style))
+			vsymAssert(vsymImplies(changed, e.tty.vt.cells[i].stamp > blk), "a cell whose rune, combining runes or style changed is rewritten by the next Show")
 		}
 	}
 }
